@@ -1,4 +1,5 @@
 import CfrVerif.Proofs.Transforms
+import CfrVerif.Proofs.InvCompileLemmas
 import CfrVerif.Model.Eval
 /-!
 # C12, part 1: presentations that compile to the same game
@@ -15,13 +16,22 @@ variable {α : Type} [Field α] [LinearOrder α] [IsStrictOrderedRing α]
 /-- rescaling the weights of any chance nodes by positive constants: identical construction result
 (same game, or the same error) -/
 theorem rescale_chance_weights (r r' : Raw α) (h : Rescaled r r') : fromRoot r' = fromRoot r := by
-  sorry
+  unfold fromRoot
+  rw [compile_rescale r r' {} {} h]
 
 /-- an injective renaming of infosets, actions and chance infosets: the same construction result
 with renamed labels (same indices, same tree, same probabilities; the same error otherwise) -/
 theorem rename_equivariant (ρ : Renaming) (hρ : ρ.Injective) (r : Raw α) :
     fromRoot (r.rename ρ) = (fromRoot r).map (Game.rename ρ) := by
-  sorry
+  unfold fromRoot
+  have h0 := compile_rename ρ hρ r {} ({} : BState α)
+  change compile (r.rename ρ) {} {} = _ at h0
+  rw [h0]
+  cases compile r {} ({} : BState α) with
+  | error e => rfl
+  | ok x =>
+    obtain ⟨n, s⟩ := x
+    simp [Except.map, Game.rename, BState.rename]
 
 /-- inserting single-outcome chance nodes and single-action decision nodes (with labels the tree
 does not use): construction fails with the same error, or succeeds with the same tree, chance
@@ -36,16 +46,42 @@ theorem degenerate_nodes_transparent (fresh : Bool → Nat → Bool) (act : Bool
       (∀ e ∈ g'.s2, e ∈ g.s2 ∨ (fresh false e.1 = true ∧ e.2 = act false e.1))
     | .error e, .error e' => e = e'
     | _, _ => False := by
-  sorry
+  have h0 : PadRel fresh act ({} : BState α) ({} : BState α) :=
+    ⟨rfl, fun _ => rfl, fun one e he => by cases one <;> simp [BState.infos] at he,
+      fun _ _ h => h, fun _ _ h => Or.inl h,
+      fun one e he => by cases one <;> simp [BState.singles] at he, fun _ _ _ => rfl⟩
+  have h1 := compile_pad hp hav {} {} {} h0
+  unfold fromRoot
+  cases hc : compile r {} ({} : BState α) with
+  | error e =>
+    cases hc' : compile r' {} ({} : BState α) with
+    | error e' => simpa [hc, hc'] using h1
+    | ok y => simp [hc, hc'] at h1
+  | ok x =>
+    cases hc' : compile r' {} ({} : BState α) with
+    | error e' => simp [hc, hc'] at h1
+    | ok y =>
+      obtain ⟨n, t⟩ := x
+      obtain ⟨n', t'⟩ := y
+      simp only [hc, hc', ExRel_ok] at h1
+      obtain ⟨hn, ht⟩ := h1
+      simp only at hn
+      subst hn
+      refine ⟨by rw [ht.chance], rfl, ht.infos true, ht.infos false, ht.sub true, ht.sub false,
+        ht.sup true, ht.sup false⟩
 
 theorem sameShape_rename (ρ : Renaming) (g : Game α) : g.SameShape (g.rename ρ) := by
-  sorry
+  refine ⟨rfl, rfl, ?_, ?_⟩ <;>
+  simp [Game.rename, PInfo.rename, List.map_map, Function.comp_def]
 
 /-- evaluation only looks at the shape -/
 theorem getInfo_sameShape (g g' : Game α) (h : g.SameShape g') (σ : Bool → Strat α) :
     (getInfo g σ).util = (getInfo g' σ).util ∧ (getInfo g σ).regretOne = (getInfo g' σ).regretOne ∧
     (getInfo g σ).regretTwo = (getInfo g' σ).regretTwo := by
-  sorry
+  have e1 := optimalDeviations_sameShape g g' h true (σ false)
+  have e2 := optimalDeviations_sameShape g g' h false (σ true)
+  obtain ⟨hc, hr, -, -⟩ := h
+  simp only [getInfo, hc, hr, e1, e2, and_self]
 
 /-- so does every solver -/
 theorem solve_sameShape [Transc α] (g g' : Game α) (h : g.SameShape g') (p : RegretParams α)
@@ -57,6 +93,86 @@ theorem solve_sameShape [Transc α] (g g' : Game α) (h : g.SameShape g') (p : R
       = solveVanillaMultiS sched g' sampled p draw T thr target ∧
     solveExternalMultiS sched g p draw T thr target
       = solveExternalMultiS sched g' p draw T thr target := by
-  sorry
+  have hi := init_sameShape g g' h
+  obtain ⟨hc, hr, -, -⟩ := h
+  have v1 : vanillaIter g sampled p draw = vanillaIter g' sampled p draw := by
+    funext it s log
+    simp only [vanillaIter, hc, hr]
+  have v2 : externalIter g p draw = externalIter g' p draw := by
+    funext it s log
+    simp only [externalIter, externalPass, hc, hr]
+  have v3 : vanillaMultiIterS sched g sampled p draw target
+      = vanillaMultiIterS sched g' sampled p draw target := by
+    funext it s log
+    simp only [vanillaMultiIterS, vanillaMultiEffects, hc, hr]
+  have v4 : externalMultiIterS sched g p draw target = externalMultiIterS sched g' p draw target := by
+    funext it s log
+    simp only [externalMultiIterS, externalMultiPassS, externalMultiEffects, hc, hr]
+  simp only [solveVanillaSingle, solveExternalSingle, solveVanillaMultiS, solveExternalMultiS,
+    solveWith, hi, v1, v2, v3, v4, and_self]
+
+/-! ## non-vacuity -/
+
+/-- a named chance infoset over two player-one nodes sharing an infoset; player two has a
+single-action node -/
+def exC12 : Raw ℚ :=
+  .chance (some 4) [1, 3]
+    [.player true 5 [0, 1] [.term 1, .player false 2 [7] [.term 0]],
+     .player true 5 [0, 1] [.term (-1), .term 3]]
+
+example : (fromRoot exC12).toBool = true := by decide +kernel
+
+/-- the same tree with the chance weights doubled -/
+def exC12scaled : Raw ℚ :=
+  .chance (some 4) [2, 6]
+    [.player true 5 [0, 1] [.term 1, .player false 2 [7] [.term 0]],
+     .player true 5 [0, 1] [.term (-1), .term 3]]
+
+example : Rescaled exC12 exC12scaled := by
+  simp only [exC12, exC12scaled, Rescaled, RescaledL, and_self, and_true, true_and]
+  exact ⟨2, by norm_num, by norm_num⟩
+
+example : (fromRoot exC12scaled).toBool = true := by decide +kernel
+
+/-- an injective renaming -/
+def exRho : Renaming := ⟨fun o n => if o then n + 10 else 2 * n + 1, fun a => a + 100, fun c => c + 7⟩
+
+example : exRho.Injective := by
+  refine ⟨fun o a b h => ?_, fun a b h => ?_, fun a b h => ?_⟩
+  · cases o <;> simp only [exRho] at h <;> simp at h <;> omega
+  · simp only [exRho] at h; omega
+  · simp only [exRho] at h; omega
+
+example : (fromRoot (exC12.rename exRho)).toBool = true := by decide +kernel
+
+/-- labels `≥ 90` are reserved for padding; the padded single-action nodes play action `42` -/
+def exFresh : Bool → Nat → Bool := fun _ l => decide (90 ≤ l)
+def exAct : Bool → Nat → Nat := fun _ _ => 42
+
+/-- `exC12` below a single-outcome chance node, with a single-action node of player one (label
+`99`) in front of the first decision and one of player two (label `98`) in front of a terminal -/
+def exC12padded : Raw ℚ :=
+  .chance none [5] [
+    .chance (some 4) [1, 3]
+      [.player true 99 [42]
+        [.player true 5 [0, 1] [.term 1, .player false 2 [7] [.term 0]]],
+       .player true 5 [0, 1] [.term (-1), .player false 98 [42] [.term 3]]]]
+
+example : Padded exFresh exAct exC12 exC12padded :=
+  .padChance _ _ 5 (by norm_num) <|
+    .chance _ _ _ _ <|
+      .cons _ _ _ _
+        (.padPlayer _ _ true 99 rfl <|
+          .player _ _ _ _ _ <| .cons _ _ _ _ (.term _) <|
+            .cons _ _ _ _ (.player _ _ _ _ _ <| .cons _ _ _ _ (.term _) .nil) .nil) <|
+      .cons _ _ _ _
+        (.player _ _ _ _ _ <| .cons _ _ _ _ (.term _) <|
+          .cons _ _ _ _ (.padPlayer _ _ false 98 rfl (.term _)) .nil)
+        .nil
+
+example : exC12.AvoidsFresh exFresh := by
+  simp [exC12, exFresh, Raw.AvoidsFresh, Raw.AvoidsFreshL]
+
+example : (fromRoot exC12padded).toBool = true := by decide +kernel
 
 end Cfr
